@@ -90,9 +90,8 @@ func checkC07(c *Ctx) {
 			r.Unk("C07.1", "ingestRegistration: anchors", f.Pos(), fnName(f), "AddRegistration / PhantomIsLive / ParseOrResolveBlocklisted / ValidateRegistration not all found")
 		} else {
 			add, probe := addL.site(), probeL.site()
-			probeCall := probeL.call
-			guardPath := guardL.toRoot(pathOf(guardL.call.Value()))
-			probePath := probeL.toRoot(pathOf(probeL.call.Value()))
+						guardPath := guardL.toRoot(pathOf(guardL.value()))
+			probePath := probeL.toRoot(pathOf(probeL.value()))
 			guarded := func(_ *ssa.Function, in ssa.Instruction, atoms ...Atom) bool {
 				switch in {
 				case add:
@@ -102,7 +101,7 @@ func checkC07(c *Ctx) {
 				}
 				return guardedM(f, in, atomMatcher(atoms...))
 			}
-			v := validateL.toRoot(pathOf(validateL.call.Value()))
+			v := validateL.toRoot(pathOf(validateL.value()))
 			r.Check(guarded(f, add, Atom{v + "#0", true}) && guarded(f, add, Atom{"(" + orderEq("nil", v+"#1") + ")", true}), "C07.1", "ingest: validated only after ValidateRegistration returned (true, nil)", add.Pos(), fnName(f), "dominated by ok && err == nil",
 				"a registration that failed field/transport/blocklist validation can still be validated and announced")
 			r.Check(guarded(f, add, Atom{"(" + orderEq(`""`, guardPath+"#0") + ")", false}), "C07.1", "ingest: validated only with a covert that passed the covert policy", add.Pos(), fnName(f), "dominated by covert != \"\"",
@@ -144,7 +143,7 @@ func checkC07(c *Ctx) {
 				r.OK("C07.2", "ingest: the probe is must-pass for non-prescanned IPv4 phantoms", add.Pos(), "no path to AddRegistration avoids it except PreScanned()/IPv6 edges")
 			}
 			// the probed address/port are the registration's phantom
-			pa := argsOf(probeCall.Common())
+			pa := argsOf(probeL.common())
 			r.Check(len(pa) >= 2 && probeL.toRoot(pathOf(pa[0])) == "reg.PhantomIp.String()" && probeL.toRoot(pathOf(pa[1])) == "reg.PhantomPort", "C07.2", "ingest: the probe targets the registration's phantom address and port", probe.Pos(), fnName(f), probePath, "the liveness probe targets something other than this registration's phantom")
 
 			// ---- C07.6 sharing
